@@ -55,7 +55,7 @@ theorem stroke_area_grows (s : Style) (r : Rect) (h : NoSat s r) (hr : 0 < r.siz
     (strokeArea s r).size.h = r.size.h + 2 * s.outsideStrokeWidth := by
   unfold strokeArea
   rw [s.strokeOffset_eq h.1]
-  have := C16.offset_moves_sides r (s.outsideStrokeWidth : Int) hr (by omega)
+  have := C16.offset_moves_sides r (s.outsideStrokeWidth : Int) (Or.inr hr) (by omega)
     (by have := h.2.1; have := h.2.2; omega)
   omega
 
